@@ -1,8 +1,8 @@
 #!/bin/bash
-# usage: seed_validate.sh <Cxx> <variant>   -- validates /tmp/seed_<Cxx>/SEED/<variant> in that worktree and, if all three
+# usage: seed_validate.sh <Cxx> <variant> [worktree prefix=/tmp/seed_] [store as variant]  -- validates /tmp/seed_<Cxx>/SEED/<variant> in that worktree and, if all three
 # confirmations hold, stores it under /verif/seeded/<Cxx>-<variant>/ . Confirmations: (i) patch only -> suite passes (81);
 # (ii) patch+demo -> demo fails; (iii) demo only -> all pass.
-id=$1; v=$2; d=/tmp/seed_$id; s=$d/SEED/$v
+id=$1; v=$2; pre=${3:-/tmp/seed_}; as=${4:-$v}; d=$pre$id; s=$d/SEED/$v
 cd $d || exit 3
 export CARGO_NET_OFFLINE=true
 clean() { git checkout -q -- . ; git clean -fdq src tests; }
@@ -24,7 +24,7 @@ ok=1
 [[ "$r2" == *" 0 failed" ]] && ok=0
 [[ "$r3" == *" 0 failed" ]] || ok=0
 if [ $ok = 1 ]; then
-  t=/verif/seeded/$id-$v; mkdir -p $t; cp $s/patch.diff $s/demo.diff $t/
+  t=/verif/seeded/$id-$as; mkdir -p $t; cp $s/patch.diff $s/demo.diff $t/
   python3 - "$s/meta.json" "$t/meta.json" "$r1" "$r2" "$failed2" "$r3" <<'P'
 import json,sys
 try: m=json.load(open(sys.argv[1]))
